@@ -87,9 +87,21 @@ def import_binding_text(r):
     return "\n".join(lines) + "\n"
 
 
+def escapes_before_tokens(r):
+    """single-line strings with escapes (their unescaped text has line breaks, tabs, quotes) that do not start in column 0
+    and are followed by more tokens on the same line"""
+    e = r.choice(["x\\n", "a\\nb\\nc", "\\n", "t\\tt", "q\\\"q", "b\\\\b", "r\\r\\n", "\u00e9\\n\u00e9"])
+    lines = ['let a = "%s" + "tail";' % e, 'let t = {a = "%s", b = 1, c = "%s"};' % (e, e), 'let f = "%s" %% (1) + "z";' % e.replace("@", ""),
+             '    let l = ["%s", 2, "%s", 3];' % (e, e), 'let s = select ("%s", 0) => {a = 1};' % e, 'let z = 1;']
+    r.shuffle(lines)
+    return "\n".join(lines[:r.randint(2, 6)]) + "\n"
+
+
 def rand_text(r, probe):
     if r.random() < 0.08:
         return nonascii_before_fault(r)
+    if r.random() < 0.06:
+        return escapes_before_tokens(r)
     if r.random() < 0.05:
         return r.choice(["let o = import \"../outside.ucg\";\nlet y = o.outer_n + \"s\";\nlet z = o.ocfg.n;\nlet bad = o.nope;\n",
                          "let o = import \"../outside.ucg\";\nlet y = o.outer_n + 1;\n",
